@@ -339,9 +339,14 @@ func (h *c15) frameDecode(p []byte) {
 		f   func([]byte) ([]byte, error)
 	}{{"rmreq", 1, msgformat.RemoveRequestFormat}, {"rmresp", 2, msgformat.RemoveResponseFormat}} {
 		line := "codec|" + d.op + "|" + vlib.Hex(p)
+		given := exactCap(p)
 		ans := guard(func() string { return okOrErr(d.f(p)) })
 		h.out.Case(line, ans, true)
 		h.out.Checked()
+		if !bytes.Equal(p, given) {
+			h.out.OracleFail("C15:decoder-alters-input:"+d.op, "the frame decoder changed the buffer it was given", line)
+			p = given
+		}
 		if strings.HasPrefix(ans, "panic") {
 			h.out.OracleFail("C15:decoder-panics:"+d.op, "the frame decoder panics instead of returning an error: "+ans, line)
 		} else if ans != spec(d.hdr) {
@@ -429,11 +434,16 @@ func (h *c15) txtDecode(p []byte) {
 	p = exactCap(p)
 	line := "codec|dectxt|" + vlib.Hex(p)
 	var err error
+	given := exactCap(p)
 	ans := guard(func() string {
 		var dec []byte
 		dec, err = dns.DecodeRDataTXT(p)
 		return okOrErr(dec, err)
 	})
+	if !bytes.Equal(p, given) {
+		h.out.OracleFail("C15:decoder-alters-input:dectxt", "DecodeRDataTXT changed the buffer it was given", line)
+		p = given
+	}
 	h.out.Case(line, ans, err == nil && strings.HasPrefix(ans, "ok"))
 	h.out.Checked()
 	spec := func() string {
@@ -1092,6 +1102,7 @@ func (h *c15) messages() {
 		var m dns.Message
 		var err error
 		buf = exactCap(buf)
+		given := exactCap(buf)
 		ans := guard(func() string {
 			m, err = dns.MessageFromWireFormat(buf)
 			if err != nil {
@@ -1101,6 +1112,10 @@ func (h *c15) messages() {
 		})
 		h.out.Case("codec|parse|"+vlib.Hex(buf), ans, err == nil)
 		h.out.Count("msg:parse-arbitrary-" + strings.SplitN(ans, " ", 3)[0])
+		if !bytes.Equal(buf, given) {
+			h.out.Checked()
+			h.out.OracleFail("C15:decoder-alters-input:parse", "MessageFromWireFormat changed the buffer it was given", "codec|parse|"+vlib.Hex(given))
+		}
 		if strings.HasPrefix(ans, "panic") {
 			h.out.Checked()
 			h.out.OracleFail("C15:decoder-panics:parse", "MessageFromWireFormat panics instead of returning an error: "+ans, "codec|parse|"+vlib.Hex(buf))
@@ -1922,6 +1937,59 @@ func (h *c15) revealTable(ct []byte, kp keypair, minLen int, gcm bool) table {
 	return tb
 }
 
+// revealOracle: a decoder on given bytes leaves them alone and answers the same when asked again
+func (h *c15) revealOracle(name string, o transports.Obfuscator, ct []byte, kp keypair, line string) ([]byte, error) {
+	ct = exactCap(ct)
+	sent := exactCap(ct)
+	back, rerr := o.TryReveal(ct, kp.priv)
+	back = append([]byte(nil), back...)
+	h.out.Checked()
+	if !bytes.Equal(ct, sent) {
+		h.out.OracleFail("C15:decoder-alters-input:"+name, name+": TryReveal changed the bytes it was given", line)
+		ct = exactCap(sent)
+	}
+	if again, aerr := o.TryReveal(ct, kp.priv); (aerr == nil) != (rerr == nil) || !bytes.Equal(again, back) {
+		h.out.OracleFail("C15:decode-not-repeatable:"+name, fmt.Sprintf("%s: revealing the same bytes twice gives different answers (err %v, then %v)", name, rerr, aerr), line)
+	}
+	return back, rerr
+}
+
+// obfsOracle: the property for one tag, with fresh keys and fresh draws (used by replays; the generator
+// below does the same with controlled draws so that the model can follow)
+func (h *c15) obfsOracle(name string, o transports.Obfuscator, pt []byte, line string) {
+	kp, wrong := h.keypair(), h.keypair()
+	ct, err := o.Obfuscate(pt, kp.pub)
+	h.out.Checked()
+	if err != nil {
+		if !(name == "xor" && len(pt) == 0) {
+			h.out.OracleFail("C15:obfuscator-rejects-representable", name+": Obfuscate fails on a valid tag and key: "+err.Error(), line)
+		}
+		return
+	}
+	sent := exactCap(ct)
+	_, _ = o.TryReveal(ct, wrong.priv)
+	if !bytes.Equal(ct, sent) {
+		h.out.OracleFail("C15:decoder-alters-input:"+name, name+": TryReveal with another key changed the encoding it was given; the holder of the right key can no longer reveal it", line)
+		ct = exactCap(sent)
+	}
+	back, rerr := h.revealOracle(name, o, ct, kp, line)
+	if rerr != nil || !bytes.Equal(back, pt) {
+		h.out.OracleFail("C15:obfuscator-roundtrip-"+name, fmt.Sprintf("%s: TryReveal(Obfuscate(tag)) != tag for a %d-byte tag (err=%v)", name, len(pt), rerr), line)
+	}
+	if name != "nil" && len(pt) >= 4 {
+		seen := map[string]bool{string(sent): true}
+		for k := 0; k < 6; k++ {
+			if c2, e2 := o.Obfuscate(pt, kp.pub); e2 == nil {
+				seen[string(c2)] = true
+			}
+		}
+		if len(seen) < 7 {
+			h.out.OracleFail("C15:obfuscator-not-fresh", fmt.Sprintf("%s: 7 obfuscations of one %d-byte tag gave only %d distinct encodings", name, len(pt), len(seen)), line)
+		}
+	}
+	fmt.Printf("replay: %s obfuscator, %d-byte tag: checked with fresh keys and draws\n", name, len(pt))
+}
+
 func (h *c15) obfuscators() {
 	kps := []keypair{h.keypair(), h.keypair(), h.keypair()}
 	lens := []int{}
@@ -1972,7 +2040,32 @@ func (h *c15) obfuscators() {
 				}
 				continue
 			}
+			// the station offers one received tag to every key it holds, on the same buffer: a reveal -
+			// failed or not - must leave the encoding as it was, and a second reveal must answer the same
+			sent := exactCap(ct)
+			ptSent, pubSent := exactCap(pt), exactCap(kp.pub)
+			h.out.Checked()
+			if !bytes.Equal(pt, ptSent) || !bytes.Equal(kp.pub, pubSent) {
+				h.out.OracleFail("C15:encoder-alters-input:"+v.name, v.name+": Obfuscate changed the tag or the key it was given", line)
+			}
+			wrong := kps[(li+1)%len(kps)]
+			_, _ = v.o.TryReveal(ct, wrong.priv)
+			h.out.Checked()
+			if !bytes.Equal(ct, sent) {
+				h.out.OracleFail("C15:decoder-alters-input:"+v.name, v.name+": TryReveal with another key changed the encoding it was given; the holder of the right key can no longer reveal it", line)
+				ct = exactCap(sent)
+			}
 			back, rerr := v.o.TryReveal(ct, kp.priv)
+			back = append([]byte(nil), back...)
+			h.out.Checked()
+			if !bytes.Equal(ct, sent) {
+				h.out.OracleFail("C15:decoder-alters-input:"+v.name, v.name+": TryReveal changed the encoding it was given", line)
+				ct = exactCap(sent)
+			}
+			if again, aerr := v.o.TryReveal(ct, kp.priv); (aerr == nil) != (rerr == nil) || !bytes.Equal(again, back) {
+				h.out.OracleFail("C15:decode-not-repeatable:"+v.name, fmt.Sprintf("%s: revealing the same encoding twice gives different answers (err %v, then %v)", v.name, rerr, aerr), line)
+			}
+			ct = sent
 			switch v.name {
 			case "nil":
 				h.out.Case("codec|obfs|nil-rev|"+hx(ct), okOrErr(back, rerr), true)
@@ -2097,7 +2190,16 @@ func (h *c15) obfuscators() {
 		for i := 0; i < vlib.Budget(150, 5000); i++ {
 			kp := kps[i%len(kps)]
 			ct := h.r.Bytes(h.r.Intn(90))
+			sent := exactCap(ct)
 			back, rerr := v.o.TryReveal(ct, kp.priv)
+			back = append([]byte(nil), back...)
+			h.out.Checked()
+			if !bytes.Equal(ct, sent) {
+				h.out.OracleFail("C15:decoder-alters-input:"+v.name, v.name+": TryReveal changed the bytes it was given", "codec|obfs|"+v.name+"-rev|"+hx(sent))
+			} else if again, aerr := v.o.TryReveal(ct, kp.priv); (aerr == nil) != (rerr == nil) || !bytes.Equal(again, back) {
+				h.out.OracleFail("C15:decode-not-repeatable:"+v.name, v.name+": revealing the same bytes twice gives different answers", "codec|obfs|"+v.name+"-rev|"+hx(sent))
+			}
+			ct = sent
 			switch v.name {
 			case "nil":
 				h.out.Case("codec|obfs|nil-rev|"+hx(ct), okOrErr(back, rerr), true)
@@ -2300,7 +2402,20 @@ func (h *c15) replay(t *testing.T, path string) {
 					}
 				}
 			} else {
-				fmt.Println("replay: randomised obfuscator cases are re-generated by the seed, not replayed:", p[2])
+				// the random draws of a recorded case cannot be repeated; the property does not depend on
+				// them: the same tag (or the same bytes, for a decoder case) with fresh keys and fresh draws
+				name, dir, ok := strings.Cut(p[2], "-")
+				o, known := map[string]transports.Obfuscator{"nil": transports.NilObfuscator{}, "xor": transports.XORObfuscator{},
+					"ctr": transports.CTRObfuscator{}, "gcm": transports.GCMObfuscator{}}[name]
+				idx := map[string]int{"nil": 3, "xor": 4, "ctr": 5, "gcm": 5}[name]
+				switch {
+				case !ok || !known:
+					fmt.Println("replay: unknown obfuscator case", p[2])
+				case dir == "obf" && len(p) > idx:
+					h.obfsOracle(name, o, unhex(p[idx]), line)
+				case dir == "rev" && len(p) > 3:
+					h.revealOracle(name, o, unhex(p[3]), h.keypair(), line)
+				}
 			}
 		default:
 			fmt.Println("replay: unsupported op", p[1])
